@@ -188,7 +188,9 @@ func RunCheck(cfg CheckConfig) int {
 			o := r.Obl
 			mine := len(o.Props) == 0 || hasProp(o.Props, prop) || prop == "ALL"
 			if prop == "C17" {
-				mine = strings.HasPrefix(o.Kind, "safe.") || o.Kind == "cover"
+				// the run-time-fault obligations of every function, plus the call-site assertions that belong to C17
+				// (e.g. "a zero divisor was reported before the constant operands are folded")
+				mine = strings.HasPrefix(o.Kind, "safe.") || o.Kind == "cover" || (strings.HasPrefix(o.Kind, "callassert") && hasProp(o.Props, "C17"))
 			}
 			if !mine {
 				continue
